@@ -202,3 +202,24 @@ def proper_subrecipes(r):
 
 
 assert linear_operator  # keep import (asserted by the runner to come from /repo)
+
+
+def built_has_class(r, clsname):
+    """True iff an instance of the library class `clsname` occurs in the operator tree BUILT from the recipe: written in the
+    recipe, or created by a constructor (e.g. the default _expand_batch of a user subclass / kernel turns a component that a
+    Kronecker / Sum constructor batch-expands into a BatchRepeatLinearOperator)."""
+    import linear_operator
+
+    cls = getattr(linear_operator.operators, clsname)
+    try:
+        op = build(r)
+    except Exception:
+        return False
+    todo, seen = [op], 0
+    while todo and seen < 300:
+        o = todo.pop()
+        seen += 1
+        if isinstance(o, cls):
+            return True
+        todo.extend(a for a in getattr(o, "_args", ()) if isinstance(a, linear_operator.LinearOperator))
+    return False
